@@ -7,3 +7,7 @@ size_t peek_timeout_index_len(const struct ares_channeldata *ch) { (void)ch; ret
 size_t peek_all_queries_len(const struct ares_channeldata *ch) { (void)ch; return 0; }
 int peek_expired_in_index(const struct ares_channeldata *ch, long long now_us) { (void)ch; (void)now_us; return 0; }
 int peek_conn_count(const struct ares_channeldata *ch) { (void)ch; return -1; }
+struct peek_qinfo { unsigned short qid; long long ts_us; long long deadline_us; unsigned long try_count; int using_tcp; int server_idx; int no_retries; };
+int peek_queries(const struct ares_channeldata *ch, struct peek_qinfo *out, int cap) { (void)ch; (void)out; (void)cap; return -1; }
+size_t peek_num_servers(const struct ares_channeldata *ch) { (void)ch; return 0; }
+int peek_channel_opts(const struct ares_channeldata *ch, long *tries, long *timeout_ms, long *maxtimeout_ms, long *ndots, long *rotate) { (void)ch; (void)tries; (void)timeout_ms; (void)maxtimeout_ms; (void)ndots; (void)rotate; return 0; }
